@@ -216,7 +216,8 @@ if __name__ == "__main__":
         "environment discipline taken from swarm.go/swarm_conn.go: a conn is in Swarm.conns.m before AddConn(c) is called (addConn), it is removed from it before RemoveConn(c) is called (doClose -> removeConn), each is called at most once per conn (closeOnce), Close once (Swarm.closeOnce)",
         "the channel capacity is a parameter of the model (theorems hold for every capacity); the harness reports cap() of the real channel and the acceptance check uses it",
         "connectedness(p) is the function of the registered open conns that swarm.connectednessUnlocked computes (Connected if a non-limited open conn, else Limited if any open conn); IsClosed()-but-still-registered conns are not modelled",
-        "swarm-level clauses (no inbound stream before Connected: c.start() after AddConn returns; Swarm.Close waits for refs before emitter.Close; ConnsToPeer = conns.m) are not part of the LTS",
+        "swarm level (SwModel.v): conns are named in the order Swarm.addConn is called and admitted in that order; Conn.Close is only called on admitted conns; a transport conn is closed only through Conn.Close / the rejection path of addConn (no remote close), so IsClosed() implies removed from the table; the atomic steps of addConn / doClose / Swarm.close are the ones listed at the top of SwModel.v; conformance of kind-8 traces to SwModel is not checked by acceptance (monitor only) - the tie is the emitter-level acceptance plus the proved refinement swarm LTS -> emitter LTS",
+        "whole-swarm runs over TCP (kind 7: several notifiees, inbound streams) are judged by their own monitor only",
     ]
     standard_flow(ctx, dict(
         consts=consts,
@@ -235,6 +236,13 @@ if __name__ == "__main__":
              "inside Connected, a subscriber closing a conn, up to 3 (quick) / 6 (thorough) conns). Each recorded label trace is checked "
              "for acceptance by the LTS (conform_case) and judged by the property monitor (monitor_case). Non-trivial = a removal "
              "overtook an in-flight Connected or a repeated NotConnected was published. "
+             "SWARM-LEVEL runs with fake transport conns (kind 8; monitor = SpecSw.v, proved to accept every schedule of the "
+             "swarm-level LTS SwModel.v): a real Swarm (NewSwarm + Swarm.addConn fed with harness conns of four classes: direct, "
+             "relayed+limited, relayed+UNLIMITED, direct-but-limited), a gateable recording event emitter (stalled subscriber), a "
+             "Notifiee with gates, transport Close that can block; in a synctest bubble with forced schedules (all schedules of the "
+             "class pairs and of slow-close configurations, Swarm.Close with a backlog of events of 2-6 peers, random configurations) "
+             "and, under the real scheduler, addConn stalled right after the insert into conns.m (the harness holds "
+             "s.directConnNotifs) racing Swarm.Close / Conn.Close. "
              "WHOLE-SWARM runs (kind 7, monitor only, real scheduler): a real Swarm with a TCP listener, two recording Notifiees "
              "(one can block in Connected / Disconnected), a stream handler and a bus subscriber; 1-3 inbound conns from a second "
              "swarm's transport with a stream opened at once on each; closed remotely (both orders), by ClosePeer while Connected "
